@@ -298,7 +298,11 @@ func (r *TaskRunner) checkTaskCondition(t *task.Task, executionContext *Executio
 		return false, err
 	}
 
-	_, err = exec.Execute(context.Background(), job)
+	_, err = exec.Execute(r.ctx, job)
+	if cerr := r.ctx.Err(); cerr != nil {
+		// the run was cancelled while the condition was being checked: the task was interrupted, not skipped
+		return false, cerr
+	}
 	if err != nil {
 		if _, ok := executor.IsExitStatus(err); ok {
 			return false, nil
